@@ -147,6 +147,7 @@ type gWorld struct {
 	relQueries int // relation filters with a target queried through the generic API
 	illegal    int // illegal generic calls that were refused
 	illWeight  int
+	lateIDs    []ecs.ID // component types registered during the history (lateTypes)
 	Wg, Wc     *ecs.World
 	ids        []ecs.ID
 	ents       []*gEnt
